@@ -48,7 +48,47 @@ func genC15(r *Rng, e *Emitter, n int) {
 		c, d := pt(), pt()
 		// the values are moved into long-lived buffers that the next case overwrites
 		defer0 := func() { a, b, c, d = slot(0, a...), slot(1, b...), slot(2, c...), slot(3, d...) }
-		switch r.Intn(8) {
+		switch r.Intn(9) {
+		case 8:
+			// surveyed alignment: consecutive half-unit stretches of an almost straight line far from the
+			// origin, ordinates given to four decimal places (no binary fraction), lateral deviations of
+			// tenths of a thousandth: disjoint, nearly collinear, half a unit apart
+			base, u, nv := make([]float64, dim), make([]float64, dim), make([]float64, dim)
+			nrm := 0.0
+			for k := 0; k < dim; k++ {
+				base[k] = float64(500000000+r.Intn(500000000)) / 1000
+				u[k] = r.Float64()*2 - 1
+				nrm += u[k] * u[k]
+			}
+			nrm = math.Sqrt(nrm)
+			if nrm < 0.01 {
+				u[0], nrm = 1, math.Sqrt(nrm*nrm+1)
+			}
+			for k := range u {
+				u[k] /= nrm
+			}
+			nv[0], nv[1] = -u[1], u[0]
+			pos := func(p geom.Coord, t float64) {
+				lat := float64(r.Intn(19)-9) * 1e-4
+				for k := 0; k < dim; k++ {
+					p[k] = math.Round((base[k]+t*u[k]+lat*nv[k])*1e4) / 1e4
+				}
+			}
+			t0 := float64(r.Intn(3)) * 0.5
+			pos(a, 0)
+			pos(b, 0.5)
+			pos(c, 1+t0)
+			pos(d, 1.5+t0)
+			if r.chance(1, 2) {
+				a, b = b, a
+			}
+			if r.chance(1, 2) {
+				c, d = d, c
+			}
+			if r.chance(1, 2) {
+				a, b, c, d = c, d, a, b
+			}
+			e.tally("surveyed-alignment")
 		case 0: // parallel
 			for k := 0; k < dim; k++ {
 				d[k] = c[k] + (b[k] - a[k])
